@@ -572,6 +572,7 @@ func (h *NtfnsHandler) filterBlock(dbtx mwdb.DBTransaction, readyWallets map[str
 	}
 
 	var relevantTxs []*txmgr.TxRecord
+	var irrelevantTxs []*wire.MsgTx
 	confirmedTxs := make(map[wire.Hash]struct{})
 	if len(readyWallets) > 0 {
 		recInCurBlk := make(map[wire.Hash]*txmgr.TxRecord)
@@ -590,6 +591,8 @@ func (h *NtfnsHandler) filterBlock(dbtx mwdb.DBTransaction, readyWallets map[str
 				rec.TxLoc = &txLoc
 				relevantTxs = append(relevantTxs, rec)
 				confirmedTxs[rec.Hash] = struct{}{}
+			} else if !blockchain.IsCoinBaseTx(tx) {
+				irrelevantTxs = append(irrelevantTxs, tx)
 			}
 		}
 	}
@@ -605,6 +608,18 @@ func (h *NtfnsHandler) filterBlock(dbtx mwdb.DBTransaction, readyWallets map[str
 				"err":    err,
 			})
 		return err
+	}
+
+	// a transaction that is not relevant itself may still double-spend an unmined one
+	for _, tx := range irrelevantTxs {
+		if err = h.walletMgr.txStore.RemoveUnminedConflicts(dbtx, tx); err != nil {
+			logging.VPrint(logging.ERROR, "RemoveUnminedConflicts error",
+				logging.LogFormat{
+					"tx":  tx.TxHash().String(),
+					"err": err,
+				})
+			return err
+		}
 	}
 	return h.walletMgr.syncStore.SetSyncedTo(dbtx, blockMeta)
 }
